@@ -586,6 +586,22 @@ example : maximalCliques (fun a b : Nat => (a, b) ∈ [(0, 1), (1, 0), (1, 2), (
       [3, 2, 0, 1] = some [[3, 2], [2, 0, 1]] := by decide
 
 
+/-- Changes of the graph that do NOT go through the methods of the queried value (history ops
+`cnode`/`cund`/`carc`: the same calls on a by-value copy of the struct, which shares the exported
+`Nodes` map; `mnode`/`marc`: direct writes to that map) are the updates `gAddNode`/`gAddEdge` already
+covered by `c18_graph_api`; the one new update is the direct delete `mdel v`
+(`delete(g.Nodes, v)` + `delete(ns, v)` in every remaining set): afterwards `v` is no node, no arc
+starts or ends at `v`, and nothing else changed — so a query is answered from the CURRENT map. -/
+theorem c18_graph_api_delnode (g : GMap) (v a b : Nat) :
+    gNb (gDelNode g v) a b = (gNb g a b && (a != v) && (b != v)) ∧
+    gIsNode (gDelNode g v) a = (gIsNode g a && (a != v)) :=
+  ⟨gNb_delNode g v a b, gIsNode_delNode g v a⟩
+
+-- triangle 1-2-3: after the direct delete of 2 the only maximal clique is {1, 3}
+example : maximalCliques (gNb (gDelNode (gBuild [.addUndirected 1 2, .addUndirected 2 3, .addUndirected 1 3]) 2))
+      (gKeys (gDelNode (gBuild [.addUndirected 1 2, .addUndirected 2 3, .addUndirected 1 3]) 2)) = some [[1, 3]] := by
+  decide
+
 /-! ### Regenerated tie (wave 9): `algz/dp.go` translated by `go2lean` on every run
 
 `Golib.Gen.Trans.C18.Knapsack` / `slicesPool_Get` / `slicesPool_Put` are regenerated from the tree under
